@@ -4,6 +4,7 @@ import (
 	"fmt"
 	"go/token"
 	"go/types"
+	"os"
 	"sort"
 	"strings"
 
@@ -355,6 +356,13 @@ func ruleD3(c *Ctx, id string) {
 			}
 			if _, isMk := resultOf(root).(*ssa.MakeSlice); isMk {
 				continue // a snapshot slice built by a private helper
+			}
+			fr, frWhy := freshSlice(c, stripConv(root), 0)
+			if fr {
+				continue // a snapshot built with make and append, possibly in a private helper
+			}
+			if os.Getenv("NFSVERIF_DEBUG") != "" {
+				fmt.Printf("D3 debug: root %T %v: %s\n", stripConv(root), stripConv(root), frWhy)
 			}
 			base := fmt.Sprintf("%s|whole Op value", FuncName(fn))
 			perKey[base]++
